@@ -41,7 +41,7 @@ from ..slivers.network_service import NSLayer, ServiceType, MirrorDirection, Net
 from ..graph.slices.abc_asm import ABCASMPropertyGraph
 from ..graph.slices.networkx_asm import NetworkxASM
 from ..graph.slices.neo4j_asm import Neo4jASM
-from ..graph.abc_property_graph import ABCPropertyGraph, GraphFormat
+from ..graph.abc_property_graph import ABCPropertyGraph, GraphFormat, PropertyGraphQueryException
 from ..graph.resources.networkx_arm import NetworkXARMGraph
 from ..graph.networkx_property_graph import NetworkXGraphImporter
 from ..graph.networkx_property_graph_disjoint import NetworkXGraphImporterDisjoint
@@ -1045,19 +1045,30 @@ class ExperimentTopology(Topology):
                             isl.get_reservation_info().reservation_state == reservation_state:
                         interfaces.add(i)
 
-        # all deletes are supposed to be idempotent
+        # an element may already be gone because its owner was pruned before it
+        def still_present(e):
+            try:
+                self.graph_model.get_node_properties(node_id=e.node_id)
+                return True
+            except PropertyGraphQueryException:
+                return False
+
         for n in nodes:
-            self._prune_node(n)
+            if still_present(n):
+                self._prune_node(n)
 
         # need parents too
         for c, n in components:
-            self._prune_components(c, n)
+            if still_present(c):
+                self._prune_components(c, n)
 
         for ns in nss:
-            self._prune_ns(ns)
+            if still_present(ns):
+                self._prune_ns(ns)
 
         for i in interfaces:
-            self._prune_interface(i)
+            if still_present(i):
+                self._prune_interface(i)
 
 
 class SubstrateTopology(Topology):
